@@ -57,6 +57,16 @@ Theorem C10_away : forall s c nick text notice target ty ch o d,
   end.
 Proof. exact (privmsg_one_nick cfg i). Qed.
 
+(* ... and "that user's away text" is the text of its LAST AWAY command: AWAY overwrites the stored text (an AWAY
+   without text clears it), changes nothing else of the record and nobody else's, and answers 306 / 305 *)
+Theorem C10_away_is_last_sent : forall s c text nick u,
+  c_nick c = Some nick -> users s !! nick = Some u ->
+  exists r, process_away cfg i s c text = Ok r /\ h_conn r = c /\ h_quit r = false /\
+    users (h_sh r) = <[nick := u_set_away text u]> (users s) /\ chans (h_sh r) = chans s /\
+    u_away (u_set_away text u) = text /\
+    h_out r = [(i, srv cfg (match text with Some _ => rpl_nowaway (client_name c) | None => rpl_unaway (client_name c) end))].
+Proof. exact (away_effect cfg i). Qed.
+
 End C10.
 
 Print Assumptions C10_can_send_iff.
@@ -64,3 +74,4 @@ Print Assumptions C10_delivered_if_can_send.
 Print Assumptions C10_refused_if_cannot_send.
 Print Assumptions C10_notice_silent.
 Print Assumptions C10_away.
+Print Assumptions C10_away_is_last_sent.
